@@ -1,4 +1,5 @@
 import OmplModel.Model.Grid
+import OmplModel.Model.GridSplit
 import OmplModel.Driver.Common
 /-!
 Line-protocol driver for the grid model.
@@ -14,9 +15,14 @@ Ops (coordinates are `d` integers):
   `topi` / `tope`   -> `<id>` | `none`             topInternal / topExternal (not called on an empty grid)
   `rmtopi`/`rmtope` -> `c=<id>` | `none`           remove (+ destroyCell) the cell topInternal/topExternal returns
   `clear`           -> `ok`
+Split protocol (Model/GridSplit.lean; one created-but-not-added cell at a time):
+  `create <x> <data>` -> `c=<id> nbh=<ids>` | `present` | `busy`   createCell(x, &nbh) + data; NOT added
+  `addc`              -> `ok` | `nopending`                          add(pending)
+  `abandon`           -> `false` | `true` | `nopending`              remove(pending) (its bool) + destroyCell
+  while a cell is pending `new`, `rm`, `rmtopi`, `rmtope`, `clear` answer `busy`; everything else works.
 Every result is followed by ` | <dump>`: the cell table sorted by id
 (`id:coords:neighbors:border:data:ids of neighbors(cell)`), both heaps in array order, both counts, the raw
-size sequence of `components()` and its canonical partition.
+size sequence of `components()` and its canonical partition, and `P=<id:coords:neighbors:border:data|->` (the pending cell).
 -/
 namespace OmplModel.Driver.GridDrv
 open OmplModel.Grid OmplModel.Heap OmplModel.Driver
@@ -24,6 +30,8 @@ open OmplModel.Grid OmplModel.Heap OmplModel.Driver
 structure St where
   cfg : Cfg
   g : GridB
+  /-- the created-but-not-added cell (`GridS.pending`) -/
+  pending : Option Cell := none
 
 def cmpOf : String → Option (Int → Int → Bool)
   | "less" => some fun a b => decide (a < b)
@@ -57,7 +65,7 @@ def init (ts : List String) : Option St :=
       | "bounds" :: xs =>
         if xs.length = 2 * dim then (parseInts? xs).map (fun v => some (v.take dim, v.drop dim)) else none
       | _ => none
-    pure ⟨{ dim, bounds, limit, ltE, ltI, ev }, {}⟩
+    pure ⟨{ dim, bounds, limit, ltE, ltI, ev }, {}, none⟩
   | _ => none
 
 def joinC (xs : List String) : String := if xs.isEmpty then "-" else ",".intercalate xs
@@ -70,7 +78,7 @@ def canonComps (cs : List (List Cell)) : String :=
     decide (a.length > b.length) || (a.length == b.length && decide (a.headD 0 ≤ b.headD 0)))
   if sorted.isEmpty then "-" else ";".intercalate (sorted.map (fun c => ",".intercalate (c.map toString)))
 
-def dump (cfg : Cfg) (g : GridB) : String :=
+def dumpG (cfg : Cfg) (g : GridB) : String :=
   let cells := g.cells.mergeSort (fun a b => decide (a.id ≤ b.id))
   let cellStr (c : Cell) : String :=
     toString c.id ++ ":" ++ joinC (c.coord.map toString) ++ ":" ++ toString c.nbrs ++ ":" ++
@@ -82,6 +90,13 @@ def dump (cfg : Cfg) (g : GridB) : String :=
     " E=" ++ joinC (g.external.arr.toList.map (fun e => toString e.key.2)) ++
     " ci=" ++ toString (countInternal g) ++ " ce=" ++ toString (countExternal g) ++
     " | sizes=" ++ joinC (comps.map (fun c => toString c.length)) ++ " comps=" ++ canonComps comps
+
+def dump (cfg : Cfg) (g : GridB) (p : Option Cell) : String :=
+  dumpG cfg g ++ " | P=" ++
+    (match p with
+     | some c => toString c.id ++ ":" ++ joinC (c.coord.map toString) ++ ":" ++ toString c.nbrs ++ ":" ++
+         (if c.border then "1" else "0") ++ ":" ++ toString c.data
+     | none => "-")
 
 /-- split `d` coordinates off the front -/
 def coord? (dim : Nat) (ts : List String) : Option (Coord × List String) :=
@@ -105,9 +120,13 @@ def pokes? (dim : Nat) : Nat → List String → Option (List (Coord × Int))
 def step (st : St) (ts : List String) : St × String :=
   let cfg := st.cfg
   let g := st.g
-  let fin (g' : GridB) (res : String) : St × String := ({ st with g := g' }, res ++ " | " ++ dump cfg g')
+  let fin (g' : GridB) (res : String) : St × String := ({ st with g := g' }, res ++ " | " ++ dump cfg g' st.pending)
+  let finP (g' : GridB) (p : Option Cell) (res : String) : St × String :=
+    ({ st with g := g', pending := p }, res ++ " | " ++ dump cfg g' p)
+  let busy := st.pending.isSome
   -- `rmtopi`/`rmtope`: remove (+ destroy) the cell that topInternal()/topExternal() returns
   let rmTop (t : Option Nat) : St × String :=
+    if busy then fin g "busy" else
     match t with
     | none => fin g "none"
     | some i =>
@@ -119,13 +138,16 @@ def step (st : St) (ts : List String) : St × String :=
     match coord? cfg.dim rest with
     | some (x, [d]) =>
       match parseInt? d with
-      | some d => if has g.cells x then fin g "present" else fin (newCell cfg g x d) s!"c={g.nextId}"
+      | some d =>
+        if busy then fin g "busy"
+        else if has g.cells x then fin g "present" else fin (newCell cfg g x d) s!"c={g.nextId}"
       | none => (st, "bad-op")
     | _ => (st, "bad-op")
   | "rm" :: rest =>
     match coord? cfg.dim rest with
     | some (x, []) =>
-      if has g.cells x then
+      if busy then fin g "busy"
+      else if has g.cells x then
         let r := removeCell cfg g x
         fin r.1 (if r.2 then "true" else "false")
       else fin g "absent"
@@ -167,7 +189,27 @@ def step (st : St) (ts : List String) : St × String :=
     | none => fin g "none"
   | ["rmtopi"] => rmTop (topInternal g)
   | ["rmtope"] => rmTop (topExternal g)
-  | ["clear"] => fin (clear g) "ok"
+  | ["clear"] => if busy then fin g "busy" else fin (clear g) "ok"
+  | "create" :: rest =>
+    match coord? cfg.dim rest with
+    | some (x, [d]) =>
+      match parseInt? d with
+      | some d =>
+        if busy then fin g "busy"
+        else if has g.cells x then fin g "present"
+        else
+          let r := GridS.createCell cfg g x d
+          finP r.1 (some r.2) (s!"c={g.nextId} nbh=" ++ joinC ((neighbors cfg.dim g.cells x).map (fun n => toString n.id)))
+      | none => (st, "bad-op")
+    | _ => (st, "bad-op")
+  | ["addc"] =>
+    match st.pending with
+    | some p => finP (GridS.addCellB cfg g p) none "ok"
+    | none => fin g "nopending"
+  | ["abandon"] =>
+    match st.pending with
+    | some p => let r := GridS.abandon cfg g p; finP r.1 none (if r.2 then "true" else "false")
+    | none => fin g "nopending"
   | _ => (st, "bad-op")
 
 end OmplModel.Driver.GridDrv
